@@ -930,9 +930,11 @@ class NestedFrame(pd.DataFrame):
         if isinstance(by, str):
             by = [by]
         # Check "by" columns for hierarchical references
-        for col in by:
-            if self._is_known_hierarchical_column(col):
-                target.append(col.split(".")[0])
+        # parse the paths like every other operation does (backticks protect parts of a path)
+        by_components = [self._parse_hierarchical_components(col) for col in by]
+        for components in by_components:
+            if self._is_known_hierarchical_column(components):
+                target.append(components[0])
             else:
                 target.append("base")
 
@@ -961,7 +963,7 @@ class NestedFrame(pd.DataFrame):
             if target_flat.index.name is None:  # set name if not present
                 target_flat.index.name = "index"
             # Index must always be the first sort key for nested columns
-            nested_by = [target_flat.index.name] + [col.split(".")[-1] for col in by]
+            nested_by = [target_flat.index.name] + [".".join(components[1:]) for components in by_components]
 
             # Augment the ascending kwarg to include the index
             if isinstance(ascending, bool):
